@@ -11,6 +11,7 @@
 package main
 
 import (
+	"bytes"
 	"context"
 	"fmt"
 	"io"
@@ -94,6 +95,9 @@ var table = []routeDef{
 	// a middleware that replaces c.Response for the rest of the chain (compression, accesslog, capture middleware do)
 	{method: "GET", pattern: "/cap/x", hid: 17, kind: "static", chain: "capture"},
 	{method: "GET", pattern: "/cap/:id", hid: 18, kind: "param", chain: "capture"},
+	// patterns longer than any label / name limit an implementation might be tempted to apply
+	{method: "GET", pattern: "/long/" + longSeg, hid: 30, kind: "static"},
+	{method: "GET", pattern: "/lp/:id/" + longSeg, hid: 31, kind: "param"},
 	{method: "GET", pattern: "/x/s", hid: 13, kind: "static"},
 	{method: "GET", pattern: "/x/d/:id", hid: 14, kind: "param"},
 	{method: "GET", pattern: "/vs", ver: "v1", hid: 20, kind: "static"},
@@ -106,6 +110,8 @@ var table = []routeDef{
 	{method: "GET", pattern: "/vd/:id", ver: "v0", hid: 25, kind: "param"},
 	{method: "GET", pattern: "/x/vs", ver: "v1", hid: 28, kind: "static"},
 }
+
+var longSeg = strings.Repeat("l", 150)
 
 var validVersions = []string{"v0", "v1", "v2"}
 
@@ -221,6 +227,9 @@ type Prog struct {
 	Cancel bool `json:",omitempty"` // the request context is cancelled while the handler runs (before it writes)
 	// mode X: panic with http.ErrAbortHandler (what httputil.ReverseProxy panics with) instead of a string
 	AbortPanic bool `json:",omitempty"`
+	// kind A: the handler shuts the app's tracer and metrics recorder down before it answers (a graceful-shutdown
+	// timeout that elapses under a slow handler); with user-supplied providers both must keep finishing what they began
+	Shut bool `json:",omitempty"`
 }
 
 func (p Prog) header() string {
@@ -232,17 +241,21 @@ func (p Prog) header() string {
 	if p.AbortPanic {
 		ap = 1
 	}
-	return fmt.Sprintf("%s,%d,%d,%d,%d", p.Mode, p.Status, p.Size, c, ap)
+	sh := 0
+	if p.Shut {
+		sh = 1
+	}
+	return fmt.Sprintf("%s,%d,%d,%d,%d,%d", p.Mode, p.Status, p.Size, c, ap, sh)
 }
 
 func parseProg(s string) Prog {
 	f := strings.Split(s, ",")
-	if len(f) != 5 {
+	if len(f) != 6 {
 		return Prog{Mode: "Q"}
 	}
 	st, _ := strconv.Atoi(f[1])
 	n, _ := strconv.Atoi(f[2])
-	return Prog{Mode: f[0], Status: st, Size: n, Cancel: f[3] == "1", AbortPanic: f[4] == "1"}
+	return Prog{Mode: f[0], Status: st, Size: n, Cancel: f[3] == "1", AbortPanic: f[4] == "1", Shut: f[5] == "1"}
 }
 
 // cancel functions of the requests whose context the handler cancels, by X-Cancel-Id
@@ -274,6 +287,8 @@ type Case struct {
 	Term  string   `json:",omitempty"`
 	Stack []string `json:",omitempty"`
 	MH    []MReq   `json:",omitempty"`
+	// kind O (otlp.go): the handler of request StartAt starts the late-initialised metrics provider
+	StartAt int `json:",omitempty"`
 }
 
 // ---------------------------------------------------------------- probe handlers
@@ -309,6 +324,9 @@ func logf(e logEv) {
 
 var body = []byte(strings.Repeat("x", 4096))
 
+// shutHook: what a handler with Prog.Shut calls (set by runA to the shutdown of that app's tracer and recorder)
+var shutHook atomic.Pointer[func()]
+
 func runProg(c *router.Context, hid int) {
 	p := parseProg(c.Request.Header.Get("X-Prog"))
 	logf(logEv{kind: "H", hid: hid, pattern: c.RoutePattern(), version: c.Version()})
@@ -327,10 +345,21 @@ func runProg(c *router.Context, hid int) {
 			f.(context.CancelFunc)() // the client went away / the server cancels: mid-flight
 		}
 	}
+	if p.Shut {
+		if f := shutHook.Load(); f != nil {
+			(*f)()
+		}
+	}
 	switch p.Mode {
 	case "E", "B":
 		c.Response.WriteHeader(p.Status)
 		_, _ = c.Response.Write(body[:p.Size])
+	case "F":
+		// io.Copy from a reader without WriteTo: goes through the writer's ReadFrom when it has one
+		c.Response.WriteHeader(p.Status)
+		_, _ = io.Copy(c.Response, struct{ io.Reader }{bytes.NewReader(body[:p.Size])})
+	case "G":
+		_, _ = io.Copy(c.Response, struct{ io.Reader }{bytes.NewReader(body[:p.Size])})
 	case "Q":
 	case "O":
 		_, _ = c.Response.Write(body[:p.Size])
@@ -615,8 +644,10 @@ func (l *lineB) facts(f facts) {
 
 func (l *lineB) prog(p Prog, libSize int) {
 	switch p.Mode {
-	case "E", "T", "B":
+	case "E", "T", "B", "F":
 		l.Tok(p.Mode).Nat(p.Status).Nat(p.Size)
+	case "G":
+		l.Tok("G").Nat(p.Size)
 	case "Q":
 		l.Tok("Q")
 	case "O":
@@ -814,6 +845,20 @@ func runA(id string, cs Case) string {
 		fmt.Fprintln(os.Stderr, "app.New:", err)
 		os.Exit(1)
 	}
+	// Prog.Shut: the app's tracer and recorder are shut down while the request is in flight (user-supplied providers:
+	// what was begun must still be finished, later requests are still recorded)
+	shut := func() {
+		ctx, cancel := context.WithTimeout(context.Background(), time.Second)
+		defer cancel()
+		if t := e.a.Tracing(); t != nil {
+			_ = t.Shutdown(ctx)
+		}
+		if m := e.a.Metrics(); m != nil {
+			_ = m.Shutdown(ctx)
+		}
+	}
+	shutHook.Store(&shut)
+	defer shutHook.Store(nil)
 	type cl struct{ status, size int }
 	results := make([]cl, len(cs.H))
 	panicked := false
@@ -1089,7 +1134,11 @@ func genProg(r *hx.Rand, chain string) Prog {
 			return Prog{Mode: "X", Status: 0, Size: 0, AbortPanic: r.Chance(1, 3)}
 		}
 	}
-	switch r.Intn(8) {
+	switch r.Intn(10) {
+	case 8:
+		return Prog{Mode: "F", Status: st, Size: n}
+	case 9:
+		return Prog{Mode: "G", Status: 0, Size: n}
 	case 0:
 		return Prog{Mode: "Q", Status: 0, Size: 0}
 	case 1:
@@ -1119,6 +1168,9 @@ func classes() []classGen {
 		{"tree-static", func(r *hx.Rand) Req { return q("tree-static", hx.Pick(r, []string{"GET", "GET", "PUT"}), "/star*", verHdr(r)) }},
 		{"main-param", func(r *hx.Rand) Req {
 			return q("main-param", "GET", hx.Pick(r, []string{"/d/" + v(r), "/d/" + v(r) + "/e/" + v(r), "/c/" + hx.Pick(r, []string{"7", "12", "0"})}), verHdr(r))
+		}},
+		{"long-pattern", func(r *hx.Rand) Req {
+			return q("long-pattern", "GET", hx.Pick(r, []string{"/long/" + longSeg, "/lp/" + v(r) + "/" + longSeg, "/long/" + longSeg[:149]}), verHdr(r))
 		}},
 		{"main-wild", func(r *hx.Rand) Req { return q("main-wild", "GET", "/w/"+v(r)+hx.Pick(r, []string{"", "/" + v(r)}), verHdr(r)) }},
 		{"main-post", func(r *hx.Rand) Req { return q("main-post", "POST", hx.Pick(r, []string{"/only/post", "/op/" + v(r)}), verHdr(r)) }},
@@ -1283,6 +1335,15 @@ func witnesses() []Case {
 		{Kind: "R", C: Cfg{Obs: true, Compiled: true, Versioning: true, NoRoute: true}, Q: Req{Method: "GET", Path: "relative", Prog: e, Class: "non-origin-target"}},
 		{Kind: "R", C: Cfg{Obs: true, Versioning: true, PathVer: true}, Q: Req{Method: "GET", Path: "/api/v17/vd/7", Prog: e, Class: "path-ver"}},
 		{Kind: "R", C: Cfg{Obs: true, Versioning: true, PathVer: true}, Q: Req{Method: "GET", Path: "/api/v99-beta/vs", Prog: e, Class: "path-ver"}},
+		// round-4 seeded changes: ReadFrom through the wrapper, long patterns, tracer / recorder shut down mid-request
+		{Kind: "R", C: Cfg{Obs: true}, Q: Req{Method: "GET", Path: "/s/a", Prog: Prog{Mode: "F", Status: 201, Size: 1023}, Class: "main-static"}},
+		{Kind: "R", C: Cfg{Obs: true, Compiled: true}, Q: Req{Method: "GET", Path: "/d/7", Prog: Prog{Mode: "G", Size: 4096}, Class: "main-param"}},
+		{Kind: "A", C: Cfg{Obs: true}, H: []Req{
+			{Method: "GET", Path: "/long/" + longSeg, Prog: e, Class: "long-pattern"},
+			{Method: "GET", Path: "/lp/7/" + longSeg, Prog: Prog{Mode: "F", Status: 404, Size: 100}, Class: "long-pattern"},
+			{Method: "GET", Path: "/s/a", Prog: Prog{Mode: "E", Status: 200, Size: 5, Shut: true}, Class: "main-static"},
+			{Method: "GET", Path: "/d/7", Prog: e, Class: "main-param"},
+		}},
 		{Kind: "A", C: on, H: []Req{
 			{Method: "GET", Path: "/s/a", Prog: e, Class: "main-static"},
 			{Method: "GET", Path: "/vmiss", Ver: "v1", Prog: e, Class: "ver-miss"},
@@ -1312,6 +1373,8 @@ func run(id string, cs Case) string {
 			done <- runAW(id, cs)
 		case "M":
 			done <- runM(id, cs)
+		case "O":
+			done <- runO(id, cs)
 		default:
 			done <- runR(id, cs)
 		}
@@ -1390,6 +1453,10 @@ func main() {
 			nt := false
 			for j := range h {
 				h[j] = genReq(r, c)
+				if r.Chance(1, 25) {
+					h[j].Prog.Shut = true
+					st.Count("A-shutdown-mid-request")
+				}
 				if count(st, c, h[j]) {
 					nt = true
 				}
@@ -1451,6 +1518,21 @@ func main() {
 			st.Count("M-stack:" + strings.Join(cs.Stack, ">") + ">" + cs.Term)
 			st.Case(fmt.Sprintf("%+v", cs), len(cs.Stack) > 0)
 			fmt.Fprintln(w, run(fmt.Sprintf("c08-%d-m%d", a.Seed, k), cs))
+		}
+		// kind O: metrics provider started while a request is in flight (otlp.go)
+		if a.N >= 100 {
+			for k := 0; k < 2; k++ {
+				n := r.Range(2, 6)
+				cs := Case{Kind: "O", StartAt: r.Range(0, n-1)}
+				for j := 0; j < n; j++ {
+					q := genMReq(r)
+					q.Method, q.Path = "GET", hx.Pick(r, []string{"/s", "/p/1"})
+					cs.MH = append(cs.MH, q)
+				}
+				st.Count("O-histories(late metrics start)")
+				st.Case(fmt.Sprintf("%+v", cs), true)
+				fmt.Fprintln(w, run(fmt.Sprintf("c08-%d-o%d", a.Seed, k), cs))
+			}
 		}
 		if n := abortNotSeen.Load(); n > 0 {
 			st.Counters["abort-not-seen-by-server-within-3s(discarded)"] = int(n)
